@@ -15,7 +15,7 @@ import ast
 from ..effects import roots_of, writes_through
 from ..model import const_value, dotted, norm_text, walk_no_nested
 from ..report import Context
-from .common import arg_or_kw, calls_in, callee, is_none, method_calls, positive_conditions
+from .common import arg_or_kw, calls_in, callee, is_none, method_calls, path_conditions, positive_conditions
 
 DEPTH = 'emsarray.operations.depth'
 BASE = 'emsarray.conventions._base.Convention'
@@ -36,7 +36,7 @@ def _negated_operand(e):
 def run(ctx: Context) -> None:
     p = ctx.p
     ctx.rule('R13.1', "purity: nothing is stored through an alias of the input dataset; all writes go to the copy", floor=4)
-    ctx.rule('R13.2', "the flip decision reads the 'positive' attribute of the input variable, not of the copy whose attribute was just overwritten, and reads it as the discovery of depth coordinates does", floor=4)
+    ctx.rule('R13.2', "the flip decision reads the current sign from the working copy (the input's is stale once a coordinate was handled), before this iteration overwrites the attribute, reads it as the discovery of depth coordinates does, and guesses a missing attribute by counting values above against values below zero", floor=4)
     ctx.rule('R13.3', "coordinate values and their bounds are negated under the same guard (requested sign set and different from the data's), stored back under their own names with dims, attrs and encoding kept; bounds are looked up dataset-wide; the current sign is updated before the ordering test", floor=8)
     ctx.rule('R13.4', "ordering is read from the first two (possibly flipped) values of the copy, deep-to-shallow iff (d1 > d2) == positive-down, and a mismatch reverses the whole dataset along the coordinate's dimension", floor=4)
     ctx.rule('R13.5', "each transformation is dominated by its `is not None` guard and by a comparison of current with requested state (unset options leave that aspect untouched; a second application is a no-op)", floor=4)
@@ -179,9 +179,63 @@ def run(ctx: Context) -> None:
             if isinstance(o, ast.Attribute) and o.attr == 'attrs':
                 reads.append((n, o.value))
         ctx.need('R13.2', len(reads) >= 2, "the 'positive' attribute is tested for and read", fi)
+        attr_stores = [n for n in walk_no_nested(fi.node) if isinstance(n, ast.Assign) and isinstance(n.targets[0], ast.Subscript)
+                       and const_value(n.targets[0].slice, None) == 'positive']
+        loops = [n for n in walk_no_nested(fi.node) if isinstance(n, ast.For)]
+
+        def position(node):
+            """(loop, index of the loop body statement holding node)"""
+            for lp in loops:
+                for i, st in enumerate(lp.body):
+                    if any(x is node for x in ast.walk(st)):
+                        return lp, i
+            return None, None
         for n, owner in reads:
-            ctx.check('R13.2', kind(owner) == 'input', "every read of the 'positive' attribute looks at the input variable (the copy's was just overwritten)", fi, n,
-                      construct=f"{norm_text(n)} reads {norm_text(owner)} ({kind(owner)})")
+            lp, i = position(n)
+            before = all(position(st)[0] is not lp or position(st)[1] > i for st in attr_stores) if lp is not None else False
+            ctx.check('R13.2', kind(owner) == 'copy' and before,
+                      "every read of the 'positive' attribute looks at the working copy, and comes before the statement that overwrites the attribute in the same iteration", fi, n,
+                      construct=f"{norm_text(n)} reads {norm_text(owner)} ({kind(owner)}); before the overwrite: {before}")
+
+        # the guess for a coordinate without the attribute
+        def sign_count(e):
+            e = flow.resolve(e)
+            inner = None
+            if isinstance(e, ast.Call) and isinstance(e.func, ast.Name) and e.func.id == 'len' and len(e.args) == 1:
+                a = flow.resolve(e.args[0])
+                if isinstance(a, ast.Subscript):
+                    inner = a.slice
+            elif isinstance(e, ast.Call) and (callee(ctx, fi, e) or '') in ('numpy.count_nonzero', 'numpy.sum') and e.args:
+                inner = e.args[0]
+            elif isinstance(e, ast.Call) and isinstance(e.func, ast.Attribute) and e.func.attr == 'sum' and not e.args:
+                inner = e.func.value
+            if inner is None:
+                return None
+            inner = flow.resolve(inner)
+            if isinstance(inner, ast.Compare) and len(inner.ops) == 1 and isinstance(inner.ops[0], (ast.Gt, ast.Lt)):
+                a, b = inner.left, inner.comparators[0]
+                gt = isinstance(inner.ops[0], ast.Gt)
+                if const_value(b, None) == 0:
+                    return ('above' if gt else 'below'), a
+                if const_value(a, None) == 0:
+                    return ('below' if gt else 'above'), b
+            return None
+        guesses = [d for d in sign_defs if any(isinstance(t, ast.Compare) and isinstance(t.ops[0], (ast.In, ast.NotIn)) and const_value(t.left, None) == 'positive'
+                                                and (pol is False) == isinstance(t.ops[0], ast.In) for t, pol in path_conditions(fi, d))]
+        ctx.need('R13.2', len(guesses) == 1, "the sign of a coordinate without a positive attribute is guessed in one place", fi)
+        g = guesses[0].value
+        ok_g, why = False, norm_text(g)
+        if isinstance(g, ast.Compare) and len(g.ops) == 1 and isinstance(g.ops[0], (ast.Gt, ast.Lt)):
+            lhs, rhs = sign_count(g.left), sign_count(g.comparators[0])
+            if lhs and rhs:
+                more, fewer = (lhs, rhs) if isinstance(g.ops[0], ast.Gt) else (rhs, lhs)
+                same = flow.canon(more[1]) == flow.canon(fewer[1])
+                src = flow.resolve(more[1])
+                on_copy = isinstance(src, ast.Attribute) and src.attr in ('values', 'data') and kind(src.value) == 'copy'
+                ok_g = more[0] == 'above' and fewer[0] == 'below' and same and on_copy
+                why = f"positive down iff count({more[0]} 0) > count({fewer[0]} 0) over {norm_text(more[1])} ({kind(src.value) if isinstance(src, ast.Attribute) else '?'})"
+        ctx.check('R13.2', ok_g, "the guess is 'positive down iff more values lie above zero than below zero', counted on the working copy's values (zeros, such as a surface level, vote for neither)", fi, guesses[0],
+                  construct=why)
         ok = folded = False
         for d in sign_defs:
             v = d.value
@@ -432,7 +486,13 @@ VARIANTS = [
     V('C13', 'positive-case-sensitive', _D, "(str(positive_attr).lower() == 'down')", "(positive_attr == 'down')", 'R13.2'),
     V('C13', 'writes-input-attr', _D, "            new_variable.attrs['positive'] = 'down' if positive_down else 'up'", "            variable.attrs['positive'] = 'down' if positive_down else 'up'", 'R13.1'),
     V('C13', 'no-copy', _D, "    new_dataset = dataset.copy()", "    new_dataset = dataset", 'R13.1'),
-    V('C13', 'decision-from-copy', _D, "            positive_attr = variable.attrs.get('positive')", "            positive_attr = new_variable.attrs.get('positive')", 'R13.2'),
+    V('C13', 'decision-from-input', _D, "            positive_attr = new_variable.attrs.get('positive')", "            positive_attr = variable.attrs.get('positive')", 'R13.2'),
+    V('C13', 'decision-test-from-input', _D, "        if 'positive' in new_variable.attrs:", "        if 'positive' in variable.attrs:", 'R13.2'),
+    V('C13', 'attribute-overwritten-before-read', _D, "        new_variable = new_dataset[name]\n        if 'positive' in new_variable.attrs:", "        new_variable = new_dataset[name]\n        if positive_down is not None:\n            new_variable.attrs['positive'] = 'down' if positive_down else 'up'\n        if 'positive' in new_variable.attrs:", 'R13.2'),
+    V('C13', 'guess-counts-zeros-as-up', _D, "            data_positive_down = positive_values > negative_values", "            data_positive_down = positive_values > len(new_variable.values) / 2", 'R13.2'),
+    V('C13', 'guess-from-input-values', _D, "            negative_values = numpy.count_nonzero(new_variable.values < 0)", "            negative_values = numpy.count_nonzero(variable.values < 0)", 'R13.2'),
+    V('C13', 'guess-inverted', _D, "            data_positive_down = positive_values > negative_values", "            data_positive_down = positive_values < negative_values", 'R13.2'),
+    V('C13', 'benign-guess-len-form', _D, "            positive_values = numpy.count_nonzero(new_variable.values > 0)", "            positive_values = len(new_variable.values[new_variable.values > 0])", None),
     V('C13', 'bounds-flip-outside-guard', _D, "            try:\n                bounds_name = new_variable.attrs['bounds']\n                bounds_variable = new_dataset[bounds_name]\n            except KeyError:\n                pass\n            else:\n                new_dataset = new_dataset.assign({\n                    bounds_name: (\n                        bounds_variable.dims,\n                        -1 * bounds_variable.values,\n                        bounds_variable.attrs,\n                        bounds_variable.encoding,\n                    ),\n                })\n\n            # Update this so the deep-to-shallow normalization can use it\n            data_positive_down = positive_down\n",
       "            # Update this so the deep-to-shallow normalization can use it\n            data_positive_down = positive_down\n\n        if positive_down is not None:\n            try:\n                bounds_name = new_variable.attrs['bounds']\n                bounds_variable = new_dataset[bounds_name]\n            except KeyError:\n                pass\n            else:\n                new_dataset = new_dataset.assign({\n                    bounds_name: (\n                        bounds_variable.dims,\n                        -1 * bounds_variable.values,\n                        bounds_variable.attrs,\n                        bounds_variable.encoding,\n                    ),\n                })\n", ('R13.3', 'R13.5')),
     V('C13', 'bounds-not-negated', _D, "                        -1 * bounds_variable.values,", "                        bounds_variable.values,", 'R13.3'),
@@ -448,5 +508,5 @@ VARIANTS = [
     # benign
     V('C13', 'benign-unary-minus', _D, "            new_values = -1 * new_variable.values", "            new_values = -new_variable.values", None),
     V('C13', 'benign-slice-form', _D, "            d1, d2 = new_variable.values[0:2]", "            d1, d2 = new_variable.values[:2]", None),
-    V('C13', 'benign-inverted-attr-guard', _D, "        if 'positive' in variable.attrs:\n            positive_attr = variable.attrs.get('positive')\n", "        if 'positive' in variable.attrs:\n            positive_attr = variable.attrs['positive']\n", None),
+    V('C13', 'benign-inverted-attr-guard', _D, "            positive_attr = new_variable.attrs.get('positive')\n", "            positive_attr = new_variable.attrs['positive']\n", None),
 ]
